@@ -912,6 +912,16 @@ def h_squeeze(I, a, k, st, n):
     return Arr(keep, body)
 
 
+def _np_allany(which):
+    def h(I, a, k, st, n):
+        v = a[0] if a else None
+        if isinstance(v, bool): return v
+        if isinstance(v, PV) and all(isinstance(l, bool) for _, l in pv_leaves(v)): return v          # a scalar test
+        if isinstance(v, (Arr, ArrParam, LocalArr)) and k.get("axis") is None and len(a) == 1: return call_method(I, v, which, [], {}, st, n)
+        return Opaque(f"np.{which}")
+    return h
+
+
 def h_allclose(I, a, k, st, n):
     """np.allclose: a tolerance test - it does NOT establish equality of its operands, so nothing is learnt on the true branch."""
     text = " ".join(ast.unparse(n).split())[:120]
@@ -1042,6 +1052,8 @@ _reg("numpy.power", h_pow)
 _reg("numpy.pad", h_pad)
 _reg("numpy.correlate", h_correlate)
 _reg("numpy.allclose", h_allclose)
+_reg("numpy.all", _np_allany("all"))
+_reg("numpy.any", _np_allany("any"))
 _reg("numpy.squeeze", h_squeeze)
 _reg("numpy.diff", h_diff)
 _reg("numpy.gradient", h_gradient)
